@@ -121,13 +121,25 @@ def item_put_fidelity(ctx, n):
         srv.mkcol("/u/")
         srv.mkcalendar("/u/c/")
         srv.mkaddressbook("/u/a/")
+        forced = ["same", "none", "other", "none-first"]      # every multi-component shape once, on fresh names, first
         for i in range(n):
             card = rng.random() < 0.3
             coll = "/u/a/" if card else "/u/c/"
             uid = rng.choice(UID_POOL)
             name = rng.choice(["n1.ics", "n2.ics", "x.ics", "X.ics", "y y.ics", "é.ics", "n1.vcf", "k%41.ics"])
             kind = "VCARD" if card else rng.choice(["VEVENT", "VTODO"])
+            if i < len(forced):
+                card, coll, kind, uid, name = False, "/u/c/", "VEVENT", "multi-%d" % i, "multi-%d.ics" % i
             body = comp_text(kind, uid, "s%d" % i)
+            second = None
+            if kind == "VEVENT" and (i < len(forced) or rng.random() < 0.35):
+                # several components in one item: an overridden instance that carries the same UID, no UID at all, or another UID
+                second = forced[i] if i < len(forced) else rng.choice(forced)
+                body = comp_text(kind, uid, "s%d" % i, extra="RRULE:FREQ=DAILY;COUNT=5\r\n")
+                ov = comp_text(kind, {"same": uid, "other": uid + "-x"}.get(second, uid), "ov%d" % i, extra="RECURRENCE-ID:20130902T180000Z\r\n")
+                if second in ("none", "none-first"):
+                    ov = re.sub(r"UID:[^\r]*\r\n", "", ov, count=1)
+                body = (ov + body) if second == "none-first" else (body + ov)
             if not card:
                 body = "BEGIN:VCALENDAR\r\nPRODID:-//v//EN\r\nVERSION:2.0\r\n" + body + "END:VCALENDAR\r\n"
             before = impl.tree_dump(srv.folder, skip_cache=True)
@@ -137,13 +149,29 @@ def item_put_fidelity(ctx, n):
             if st >= 400 and impl.tree_dump(srv.folder, skip_cache=True) != before:
                 ctx.violation("item PUT answered %s but the store changed" % st, dict(path=coll + name, body=body))
                 return
-            uids = [c[1] for cs in after_objs.values() for c in cs]
+            uids = [u for cs in after_objs.values() for u in sorted({str(c[1]) for c in cs})]      # one object = one item file
             if len(set(uids)) != len(uids):
                 ctx.violation("collection %s holds two objects with one UID after PUT %s (%s)" % (coll, name, st), dict(objects=repr(after_objs)))
                 return
-            if st == 201 and after_objs.get(name) != [(kind, uid, "s%d" % i)]:
+            if st == 201 and second is None and after_objs.get(name) != [(kind, uid, "s%d" % i)]:
                 ctx.violation("PUT answered 201 but the item does not hold the uploaded object", dict(path=coll + name, stored=repr(after_objs.get(name))))
                 return
+            for fn_, cs in after_objs.items():
+                if len({c[1] for c in cs}) > 1:
+                    ctx.violation("item %s%s holds components with different UIDs %r after PUT %s (%s)" % (
+                        coll, fn_, sorted({str(c[1]) for c in cs}), name, st), dict(path=coll + name, body=body, stored=repr(cs)))
+                    return
+        # the offline verifier on a cold cache (it only re-parses items on a cache miss)
+        import shutil
+        for root_, dirs_, _ in os.walk(os.path.join(srv.folder, "collection-root")):
+            if ".Radicale.cache" in dirs_:
+                shutil.rmtree(os.path.join(root_, ".Radicale.cache"))
+        try:
+            ok = bool(srv.application._storage.verify())
+        except Exception as e:  # noqa
+            ok = "raised %r" % (e,)
+        if ok is not True:
+            ctx.violation("storage verifier fails on a cold cache after the item PUT scenario: %r" % (ok,), dict(objects=repr(disk_objects(srv.folder, "/u/c/"))[:3000]))
 
 
 def move_matrix(ctx):
